@@ -146,6 +146,8 @@ def getitem(it, base, idx, line=None):
         return getslice(it, base, idx[1], idx[2], idx[3], line)
     # ---- concrete sequences
     if isinstance(base, (tuple, str)) or (isinstance(base, VList) and not base.symbolic):
+        if is_strlike(idx) or idx is None:
+            it.raise_py('TypeError', 'sequence indices must be integers', line)
         items = base if isinstance(base, (tuple, str)) else base.items
         if isinstance(idx, bool) or not isinstance(idx, int):
             if isinstance(idx, (SInt, SAny)) and not isinstance(base, str):
@@ -170,6 +172,8 @@ def getitem(it, base, idx, line=None):
             return SAny(pv.PAbsent)
         it.raise_py('IndexError', 'index out of range', line)
     if isinstance(base, SStr):
+        if is_strlike(idx) or idx is None:
+            it.raise_py('TypeError', 'string indices must be integers', line)
         n = z3.Length(base.t)
         i = norm_index(it, idx, n)
         ok = z3.And(i >= 0, i < n)
@@ -177,6 +181,8 @@ def getitem(it, base, idx, line=None):
             it.raise_py('IndexError', 'string index out of range', line)
         return SStr(z3.SubString(base.t, i, 1))
     if isinstance(base, (VList, VSeqIter)):
+        if is_strlike(idx) or idx is None or isinstance(idx, (tuple, VList, VDict)):
+            it.raise_py('TypeError', 'sequence indices must be integers', line)
         seq = base.seq
         n = z3.Length(seq)
         i = norm_index(it, idx, n)
@@ -1229,8 +1235,9 @@ def filtered_sequence(it, e, env, coll):
 
 
 def mapped_sequence(it, e, env, kind, coll):
-    """[f(x) for x in xs] over a sequence of symbolic length: a fresh sequence r with
-    len(r) == len(xs) and r[i] == f(xs[i]) for all i (no unrolling)."""
+    """[f(x) for x in xs] over a sequence of symbolic length: seq.map(lambda x. f(x), xs) - no unrolling.
+    The bound variable has a canonical name per nesting depth, so the same comprehension evaluated twice
+    (code and specification) yields the identical term."""
     from .interp import Env
     if kind in ('list', 'gen') and len(e.generators) == 1 and e.generators[0].ifs:
         return filtered_sequence(it, e, env, coll)
@@ -1239,28 +1246,27 @@ def mapped_sequence(it, e, env, kind, coll):
     ctx = it.ctx
     typed = isinstance(coll, VSeqIter) or (isinstance(coll, VList) and coll.symbolic)
     seq = coll.seq if typed else it.seq_term(coll, getattr(e, 'lineno', None))
-    i = ctx.fresh(z3.IntSort(), 'mi')
+    el = coll.elem if typed else 'any'
+    depth = getattr(it, 'map_depth', 0)
+    xv = z3.Const('map.x%d' % depth, z3.StringSort() if el == 'str' else PV)
     cenv = Env(parent=env)
-    it.assign(e.generators[0].target, pv.elem_value(coll, seq[i]) if typed else lower(seq[i]), cenv)
+    owner = coll if typed else None
+    it.assign(e.generators[0].target, pv.elem_value(owner, xv) if owner is not None else lower(xv), cenv)
     ctx.spec_depth += 1
+    it.map_depth = depth + 1
     try:
         elt = it.eval(e.elt, cenv)
     finally:
         ctx.spec_depth -= 1
+        it.map_depth = depth
+    ctx.note('comprehension over a sequence of symbolic length encoded as seq.map (element expression evaluated '
+             'as a total function; a raising element expression is not modelled)')
     if isinstance(elt, (str, SStr)):
-        # a list of strings stays typed; the identity map is the sequence itself
-        if isinstance(elt, SStr) and z3.eq(z3.simplify(elt.t), z3.simplify(seq[i])) and typed and coll.elem == 'str':
+        body = as_term_str(elt)
+        if z3.eq(z3.simplify(body), xv) and el == 'str':
             return VList(seq=seq, elem='str')
-        r = ctx.fresh(z3.SeqSort(z3.StringSort()), 'map')
-        ctx.assume(z3.Length(r) == z3.Length(seq))
-        ctx.assume(z3.ForAll([i], z3.Implies(z3.And(i >= 0, i < z3.Length(seq)), r[i] == as_term_str(elt))))
-        return VList(seq=r, elem='str')
-    r = ctx.fresh(PVSeq, 'map')
-    ctx.note('comprehension over a sequence of symbolic length encoded as a mapped sequence (element '
-             'expression evaluated as a total function; a raising element expression is not modelled)')
-    ctx.assume(z3.Length(r) == z3.Length(seq))
-    ctx.assume(z3.ForAll([i], z3.Implies(z3.And(i >= 0, i < z3.Length(seq)), r[i] == lift(elt))))
-    return VList(seq=r)
+        return VList(seq=z3.SeqMap(z3.Lambda([xv], body), seq), elem='str')
+    return VList(seq=z3.SeqMap(z3.Lambda([xv], lift(elt)), seq))
 
 
 # --------------------------------------------------------------------------
@@ -1807,6 +1813,18 @@ def sp_is_int(it, args, kwargs):
     return isinstance_one(it, args[0], TYPE_MARKERS['int'])
 
 
+def sp_is_num(it, args, kwargs):
+    """a proper int (bool excluded)"""
+    v = args[0]
+    if isinstance(v, bool):
+        return False
+    if isinstance(v, (int, SInt)):
+        return True
+    if isinstance(v, SAny):
+        return mkbool(PV.is_PInt(v.t))
+    return False
+
+
 def sp_absent(it, args, kwargs):
     v = args[0]
     if isinstance(v, SAny):
@@ -1895,7 +1913,7 @@ def sp_strval(it, args, kwargs):
 SPEC_FUNCS = {
     'is_tuple': sp_is_tuple, 'is_list': sp_is_list, 'is_dict': sp_is_dict, 'is_obj': sp_is_obj, 'has': sp_has,
     'strval': sp_strval,
-    'is_exc': sp_is_exc, 'truthy': sp_truthy, 'is_none': sp_is_none, 'is_str': sp_is_str, 'is_int': sp_is_int,
+    'is_num': sp_is_num, 'is_exc': sp_is_exc, 'truthy': sp_truthy, 'is_none': sp_is_none, 'is_str': sp_is_str, 'is_int': sp_is_int,
     'absent': sp_absent, 'matches': sp_matches, 'py_int': sp_py_int, 'py_int_base': sp_py_int_base,
     'py_replace': sp_replace, 'seq': sp_seq, 'concat': sp_concat, 'same': sp_same, 'fld': sp_fld,
 }
